@@ -503,6 +503,28 @@ class SVG:
         # capture elements by id so even if we change it they remain stable
         el_by_id = {el.attrib["id"]: el for el in self.xpath(".//svg:*[@id]")}
 
+        # reject reference cycles up front: instantiating them would never finish
+        uses_of = {
+            id_: {
+                u.attrib.get(_xlink_href_attr_name(), "")[1:]
+                for u in self.xpath("descendant-or-self::svg:use", el=el)
+            }
+            for id_, el in el_by_id.items()
+        }
+        acyclic = set()
+
+        def check_acyclic(id_, trail):
+            if id_ in trail:
+                raise ValueError(f"Circular <use> reference: {' -> '.join(trail + (id_,))}")
+            if id_ in acyclic:
+                return
+            for target_id in sorted(uses_of.get(id_, ())):
+                check_acyclic(target_id, trail + (id_,))
+            acyclic.add(id_)
+
+        for id_ in sorted(uses_of):
+            check_acyclic(id_, ())
+
         while True:
             swaps = []
             use_els = list(self.xpath(".//svg:use", el=scope_el))
